@@ -1113,6 +1113,9 @@ class TransformSet:
             to_instrument=captures,
             set_conformer=self.set_conformer,
         )
+        # The variant only lends its code object to the real function:
+        # references like /module/function must not resolve to it.
+        transformed.__ptera_discard__ = True
         return self._register(captures, transformed)
 
 
